@@ -54,10 +54,18 @@ def check(tier="quick", seed=0):
         ob(nm, tuple(t[:2]) == (maj, mi), key=mg, detail={"row": row["text"], "xdis": list(t)})
 
     # (iii) every accepted magic resolves to a version tuple and an opcode table
+    # the interim magics load.py refuses: the tuple of integer constants in `if magic_int in (...)` whose body raises the
+    # "is interim Python" ImportError -- found in the AST, so that formatting of the source does not matter
+    import ast
     src = open(L.__file__.replace(".pyc", ".py")).read()
-    m = re.search(r"if magic_int in \(\s*((?:\d+,\s*)+)\):\s*raise ImportError\(\s*\"%s is interim", src)
-    rejected = set(int(x) for x in re.findall(r"\d+", m.group(1))) if m else set()
-    ob("reject-list-found", bool(m))
+    rejected, found = set(), False
+    for node in ast.walk(ast.parse(src)):
+        if isinstance(node, ast.If) and isinstance(node.test, ast.Compare) and len(node.test.ops) == 1 and isinstance(node.test.ops[0], ast.In) \
+                and isinstance(node.test.left, ast.Name) and node.test.left.id == "magic_int" and isinstance(node.test.comparators[0], (ast.Tuple, ast.List, ast.Set)) \
+                and "is interim" in ast.unparse(node.body[0]):
+            found = True
+            rejected = set(e.value for e in node.test.comparators[0].elts if isinstance(e, ast.Constant) and isinstance(e.value, int))
+    ob("reject-list-found", found)
     for mg, vs in sorted(M.magicint2version.items()):
         if mg in rejected or mg in (62135, 62215):
             continue
